@@ -92,6 +92,18 @@ Definition v_leaf_field_selections (s : sdocument) (d : document) : bool :=
 
 Definition query_root_name (s : sdocument) : option name := opt_map td_name (root s OpQuery).
 
+(* the __typename fields at the root of a selection set: directly, or inside inline fragments without
+   a type condition (which select on the same type), at any nesting depth *)
+Fixpoint root_typename_fields_of (x : selection) : list selection :=
+  match x with
+  | SField _ _ n _ _ _ _ => if name_eqb n "__typename" then [x] else []
+  | SInline _ None _ _ ss => flat_map root_typename_fields_of ss
+  | SInline _ (Some _) _ _ _ => []
+  | SSpread _ _ _ => []
+  end.
+Definition root_typename_fields (l : list selection) : list selection :=
+  flat_map root_typename_fields_of l.
+
 Definition v_fields_on_correct_type (s : sdocument) (d : document) : bool :=
   existsb (fun fe : selection * env =>
              let '(f, e) := fe in
@@ -105,10 +117,11 @@ Definition v_fields_on_correct_type (s : sdocument) (d : document) : bool :=
              | None => false
              end) (field_events s d)
   ||
-  (* a __typename directly at a subscription root may be reported *)
+  (* a __typename at a subscription root (directly or through inline fragments without a type
+     condition) may be reported *)
   existsb (fun o => match o_kind o with
                     | OpSubscription =>
-                        existsb (fun x => match x with SField _ _ n _ _ _ _ => name_eqb n "__typename" | _ => false end) (o_sels o)
+                        match root_typename_fields (o_sels o) with [] => false | _ :: _ => true end
                     | _ => false
                     end) (operations_of d).
 
